@@ -15,3 +15,114 @@ package container
 //@   ensures ret.Err == nil && ws_signaled(uint32(ret.WaitStatus)) ==> int(result.ExecReply.Status) == status_of_signal(ws_termsig(uint32(ret.WaitStatus))) && result.ExecReply.ExitStatus == ws_termsig(uint32(ret.WaitStatus))
 //@   ensures ret.Err == nil && !ws_exited(uint32(ret.WaitStatus)) && !ws_signaled(uint32(ret.WaitStatus)) ==> result.Error != nil && result.ExecReply == nil && len(result.Error.Msg) > 0
 //@   ensures result.ExecReply != nil ==> int64(result.ExecReply.Time) == ret.Rusage.Utime.Sec * 1000000000 + ret.Rusage.Utime.Usec * 1000 && uint64(result.ExecReply.Memory) == uint64(ret.Rusage.Maxrss << 10)
+
+// ---- container side of the RPC (typestate over the protocol ghost P.st, spec/protocol.contracts) ----
+
+// The two transport primitives: their effect on the protocol state is their definition (the peer and
+// the socket goroutines are not modelled); everything else about their bodies is verified.
+//@ func container.(*containerServer).sendReplyFiles props C10 C12
+//@   arith int
+//@   requires reply_due(P.st)
+//@   requires P.st == 2 ==> rep.Error != nil || msg.Cred != nil
+//@   assigns P.st
+//@   abstracts result == nil ==> P.st == reply_next(old(P.st), rep.Error != nil, msg.Cred != nil)
+//@   abstracts result != nil ==> P.st == 9
+//@   abstracts old(P.st) == 9 ==> result != nil
+//@   loop 0: invariant -1 <= rangeindex && rangeindex < len(fileToClose)
+
+//@ func container.(*containerServer).sendReply
+//@   inline
+
+//@ func container.(*containerServer).sendErrorReply props C10
+//@   arith int
+//@   requires reply_due(P.st)
+//@   assigns P.st
+//@   ensures result == nil ==> P.st == reply_next(old(P.st), true, false)
+//@   ensures result != nil ==> P.st == 9
+//@   ensures old(P.st) == 9 ==> result != nil
+
+//@ func container.(*containerServer).recvCmd props C10
+//@   arith int
+//@   requires recv_due(P.st)
+//@   assigns P.st
+//@   abstracts result.2 != nil ==> P.st == 9
+//@   abstracts old(P.st) == 9 ==> result.2 != nil
+//@   abstracts result.2 == nil ==> P.st == recv_next(old(P.st), int(result.0.Cmd))
+//@   abstracts result.2 == nil && old(P.st) == 3 ==> int(result.0.Cmd) == 6 || int(result.0.Cmd) == 7
+//@   abstracts result.2 == nil && old(P.st) == 6 ==> int(result.0.Cmd) == 7
+
+// kill arrives on the command channel while the program runs
+//@ func chan.recv:container.containerServer.recvCh
+//@   assumed "role of recvCh while a program runs: the host's kill (rely on the host projection)"
+//@   assigns P.st
+//@   ensures old(P.st) == 5 ==> P.st == 7
+//@   ensures old(P.st) != 5 ==> P.st == old(P.st)
+
+//@ func chan.recv:container.containerServer.done
+//@   assumed "role of done: the transport is lost"
+//@   assigns P.st
+//@   ensures P.st == 9
+
+//@ func container.(*containerServer).serve props C10 C16
+//@   arith int
+//@   requires P.st == 0
+//@   assigns P.st
+//@   loop 0: invariant P.st == 0 || P.st == 9
+
+//@ func container.(*containerServer).handleCmd props C10
+//@   arith int
+//@   requires P.st == recv_next(0, int(cmd.Cmd))
+//@   assigns P.st
+//@   ensures result == nil ==> P.st == 0 || P.st == 9
+
+//@ func container.(*containerServer).handlePing props C10
+//@   arith int
+//@   requires P.st == 1
+//@   assigns P.st
+//@   ensures result == nil ==> P.st == 0 || P.st == 9
+
+//@ func container.(*containerServer).handleConf props C10
+//@   arith int
+//@   requires P.st == 1
+//@   ensures result == nil ==> P.st == 0 || P.st == 9
+
+//@ func container.(*containerServer).handleDelete props C10 C14
+//@   arith int
+//@   requires P.st == 1
+//@   assigns P.st
+//@   ensures result == nil ==> P.st == 0 || P.st == 9
+
+//@ func container.(*containerServer).handleReset props C10 C13
+//@   arith int
+//@   requires P.st == 1
+//@   assigns P.st
+//@   loop 0: invariant P.st == 1 && -1 <= rangeindex && rangeindex < len(c.Mounts)
+//@   ensures result == nil ==> P.st == 0 || P.st == 9
+
+//@ func container.(*containerServer).handleSymlink props C10 C14
+//@   arith int
+//@   requires P.st == 1
+//@   assigns P.st
+//@   loop 0: invariant P.st == 1 && -1 <= rangeindex && rangeindex < len(links) && len(symlinkErrors) == len(links)
+//@   ensures result == nil ==> P.st == 0 || P.st == 9
+//@   callsite (*containerServer).sendReply: assert @C14 len(rep.BatchErrors) == len(links)
+
+//@ func container.(*containerServer).handleExecveStarted props C10 C12
+//@   arith int
+//@   requires P.st == 5
+//@   assigns P.st
+//@   ensures result == nil ==> P.st == 0 || P.st == 9
+
+// The sync callback: reply with the pid (sync), then wait for ok / kill.
+//@ func container.(*containerServer).handleExecve$1 props C07 C10
+//@   arith int
+//@   requires P.st == 2 && c != nil && 0 <= pid && pid < 2147483648
+//@   assigns P.st
+//@   ensures result == nil ==> P.st == 5
+//@   ensures result != nil ==> P.st == 4 || P.st == 9
+//@   callsite (*containerServer).sendReply: assert @C07 msg.Cred != nil && int(msg.Cred.Pid) == pid
+
+//@ func container.(*containerServer).handleExecve props C10 C12
+//@   arith int
+//@   requires P.st == 2
+//@   ensures result == nil ==> P.st == 0 || P.st == 9
